@@ -233,6 +233,7 @@ extern int_t   zLUMemInit (fact_t, void *, int_t, int, int, int_t, int,
                             GlobalLU_t *, int **, doublecomplex **);
 extern void    zSetRWork (int, int, doublecomplex *, doublecomplex **, doublecomplex **);
 extern void    zLUWorkFree (int *, doublecomplex *, GlobalLU_t *);
+extern void    zLUMemFree (fact_t, GlobalLU_t *);
 extern int_t   zLUMemXpand (int, int_t, MemType, int_t *, GlobalLU_t *);
 
 extern doublecomplex  *doublecomplexMalloc(size_t);
